@@ -12,6 +12,9 @@ S2C: TLC enumerates response wires x {GET, HEAD} x decompress on/off x body limi
      done with exactly (code, header fields, body) / failed as the specification says.
 C2S: random responses (interim 1xx, duplicate headers, gzip, mutations at framing-relevant positions)
      x random segmentation, recorded from real fetches and validated by TLC (Trace_HttpReader).
+
+Binding demonstrated during development: the unchanged tree yields F18 / F37 / F38 / F39; with the four patches the check is
+silent; the seeded edit M4 (204 body check dropped) is reported by the S2C replay (`rej: 204body`) (notes/httpr.md).
 """
 import random
 
